@@ -48,6 +48,8 @@ func genJobs(ctx *core.Ctx) []genJob {
 	var jobs []genJob
 	single := `{"single"}`
 	chains := `{"two", "three"}`
+	// quick: three entries in the two-group space for the two basic families, two for the others (time)
+	s2top := map[string]int{"cid": 3, "tu1": 3, "tuEdge": 2, "tuMix": 2, "tuPrefix": 2}
 	if !ctx.Thorough() {
 		for _, f := range fams {
 			sh := 1
@@ -56,8 +58,9 @@ func genJobs(ctx *core.Ctx) []genJob {
 			}
 			jobs = append(jobs,
 				genJob{mode: "map", sp: "s1", fam: f, parts: single, b: 4, maxTop: 4, maxD: 1, notdef: true, shards: 1},
-				genJob{mode: "map", sp: "mix", fam: f, parts: single, b: 4, maxTop: 3, maxD: 1, notdef: true, shards: 1},
-				genJob{mode: "map", sp: "s2", fam: f, parts: single, b: 4, maxTop: 3, maxD: 1, notdef: true, shards: sh},
+				// mixed lengths with a zero first byte of the longer codes (cross-length runs)
+				genJob{mode: "map", sp: "mix0", fam: f, parts: single, b: 4, maxTop: 3, maxD: 1, notdef: true, shards: 1},
+				genJob{mode: "map", sp: "s2", fam: f, parts: single, b: 4, maxTop: s2top[f], maxD: 1, notdef: true, shards: sh},
 				genJob{mode: "map", sp: "s1", fam: f, parts: chains, b: 4, maxTop: 0, maxTotal: 2, maxD: 3, notdef: true, shards: 1},
 			)
 		}
@@ -76,6 +79,7 @@ func genJobs(ctx *core.Ctx) []genJob {
 			genJob{mode: "map", sp: "s1", fam: f, parts: single, b: 4, maxTop: 4, maxD: 1, notdef: true, shards: 1},
 			genJob{mode: "map", sp: "mix", fam: f, parts: single, b: 4, maxTop: 4, maxD: 1, wide: true, notdef: true, shards: 3 * c},
 			genJob{mode: "map", sp: "s2", fam: f, parts: single, b: 4, maxTop: 4, maxD: 1, notdef: true, shards: 3 * c},
+			genJob{mode: "map", sp: "mix0", fam: f, parts: single, b: 4, maxTop: 4, maxD: 1, notdef: true, shards: c},
 			genJob{mode: "map", sp: "s1", fam: f, parts: chains, b: 4, maxTotal: 3, maxD: 3, notdef: true, shards: 1 + 7*(c-1)},
 		)
 		if f != "tuPrefix" { // the wide mixed space only for the four older families (time)
@@ -127,7 +131,7 @@ func (v *verdicts) report(ctx *core.Ctx) {
 
 func replayCaseOf(r *record) *conCase {
 	return &conCase{Kind: r.Kind, CSR: r.CSR, Layers: r.Layers, File: r.File, Opt: r.Opt, Origin: r.Origin, Probes: r.ProbeCodes,
-		ParentName: r.ParentName, CloneStep: r.CloneStep, Predefined: r.Predefined}
+		ParentName: r.ParentName, CloneStep: r.CloneStep, Predefined: r.Predefined, NotdefSingles: r.NotdefSingles}
 }
 
 // judge sends records to TLC and files the rejected ones.  suspects[i] is the
@@ -177,7 +181,7 @@ func run(ctx *core.Ctx) error {
 	mcRun := func(cfg, consts string, workers int) {
 		defer mcWG.Done()
 		_, err := ctx.MustHold(core.TLCOpts{Dir: "font", Module: "MC_CMap", Cfg: cfg, Workers: workers, XssMB: 512, XmxMB: 4000,
-			Constants: consts, Timeout: ctx.Dur(6, 40)})
+			Constants: consts, Timeout: ctx.Dur(12, 45)})
 		if err != nil && mcErr == nil {
 			mcErr = err
 		}
